@@ -124,6 +124,38 @@ def parse(lines, tolerant):
         return None, e
 
 
+def check_result_not_shared(lines, tolerant, result):
+    """The returned dictionary belongs to the caller: scribbling over it
+    must not change what a later call with the same lines returns."""
+    import copy
+    want = copy.deepcopy(result)
+
+    try:
+        result['hunks'].append({'scribble': True})
+
+        for h in result['hunks'][:-1]:
+            h['orig']['start_line'] = -99
+            h.clear()
+
+        result['total_inserts'] = -1
+    except Exception:
+        return None
+
+    again, err = parse(lines, tolerant)
+
+    if err is not None or again != want:
+        return ('result-shared-between-calls',
+                'after the caller edited a result, parsing the same lines '
+                'again gives %r' % (_short(again if err is None else err),))
+
+    return None
+
+
+def _short(v):
+    s = repr(v)
+    return s if len(s) < 300 else s[:300] + '...'
+
+
 def run_wellformed(case, st):
     ns = sut.load()
     lines, exp = hunks.diff_lines(case['diff'])
@@ -148,6 +180,12 @@ def run_wellformed(case, st):
 
     want = expected_for(lines, exp, tolerant)
     res = compare(result, want)
+
+    if res is not None:
+        st.violation(res[0], res[1], case)
+        return
+
+    res = check_result_not_shared(feed, tolerant, result)
 
     if res is not None:
         st.violation(res[0], res[1], case)
@@ -282,6 +320,12 @@ def run_arbitrary(case, st):
         if type(n) is not int or not 0 <= n <= len(lines):
             st.violation('processed-lines-out-of-range',
                          '%r of %d lines' % (n, len(lines)), case)
+            return
+
+        res = check_result_not_shared(lines, case['tolerant'], result)
+
+        if res is not None:
+            st.violation(res[0], res[1], case)
 
 
 @hs.composite
